@@ -1,7 +1,11 @@
 package clover
 
 import (
+	"bufio"
+	"encoding/json"
 	"errors"
+	"io"
+	"os"
 
 	"github.com/gofrs/uuid/v5"
 	"github.com/ostafen/clover/v2/index"
@@ -94,3 +98,84 @@ func openEnv() *env {
 func sameBlob(a, b []byte) bool { return string(a) == string(b) }
 
 func fbits(f float64) uint64 { return mathFloat64bits(f) }
+
+// ---- a one-slot virtual file system and the JSON file codec (identity on the document list) ----
+
+var vfs = map[string][]byte{}
+var vfsFailOpen, vfsFailWrite, vfsBadContent bool
+var openFiles = map[*os.File]string{}
+var readers = map[*bufio.Reader]*os.File{}
+var decoders = map[*json.Decoder]*bufio.Reader{}
+
+//verif:redirect os.WriteFile stubWriteFile
+func stubWriteFile(name string, data []byte, perm os.FileMode) error {
+	if vfsFailWrite {
+		return errors.New("stub fs: write failed")
+	}
+	vfs[name] = data
+	return nil
+}
+
+//verif:redirect os.Open stubOpen
+func stubOpen(name string) (*os.File, error) {
+	if vfsFailOpen {
+		return nil, errors.New("stub fs: open failed")
+	}
+	if _, ok := vfs[name]; !ok {
+		return nil, errors.New("stub fs: no such file")
+	}
+	f := &os.File{}
+	openFiles[f] = name
+	return f, nil
+}
+
+//verif:redirect bufio.NewReader stubNewReader
+func stubNewReader(rd io.Reader) *bufio.Reader {
+	r := &bufio.Reader{}
+	if f, ok := rd.(*os.File); ok {
+		readers[r] = f
+	}
+	return r
+}
+
+//verif:redirect encoding/json.NewDecoder stubNewDecoder
+func stubNewDecoder(rd io.Reader) *json.Decoder {
+	dec := &json.Decoder{}
+	if r, ok := rd.(*bufio.Reader); ok {
+		decoders[dec] = r
+	}
+	return dec
+}
+
+//verif:redirect (*encoding/json.Decoder).Decode stubDecoderDecode
+func stubDecoderDecode(dec *json.Decoder, v interface{}) error {
+	data := vfs[openFiles[readers[decoders[dec]]]]
+	if vfsBadContent {
+		return errors.New("stub json: ill-formed input")
+	}
+	x, ok := codec.Get(data)
+	if !ok {
+		return errors.New("stub json: not a blob")
+	}
+	list, isList := codec.DeepCopy(x).([]interface{})
+	target, isTarget := v.(*[]*map[string]interface{})
+	if !isList || !isTarget {
+		return errors.New("stub json: unsupported target")
+	}
+	out := make([]*map[string]interface{}, 0, len(list))
+	for _, e := range list {
+		m := e.(map[string]interface{})
+		out = append(out, &m)
+	}
+	*target = out
+	return nil
+}
+
+func tmpPath(name string) string { return name }
+
+func writeRawFile(path string, wellFormed bool) {
+	vfs[path] = []byte("garbage")
+	vfsBadContent = !wellFormed
+}
+
+func setUnreadable(path string) { delete(vfs, path); vfsFailOpen = true }
